@@ -14,6 +14,8 @@ TRUSTED = ["process-level isolation of the oracle workers (each run_oracle call 
 
 SRC_FIXED = ["c d e", "v.Random(20) q.Random(10) c d e f g a b", "RandomSeed(5) t.Random(10) c d e f", "PRINT(Random(100)) PRINT(Random(100))", "INT A=1 PRINT(A) ZZZ ! c",
              "TR(3) c TR(1) d", "FUNCTION F(A){RETURN(A*2)} PRINT(F(4))", "#A={c d} #A #A", "ドレミ", "KeyFlag+(fc) c d e f", "PRINT(RandomSelect(1,2,3,4,5))",
+             # all-ASCII sources that use the sutoton preprocessor (user word definitions): every entry point must run the same preprocessing
+             "~{Riff}={l8 cdef} o5 Riff g Riff", "~{xy}={r} c xy d", "~{Up}={>} c Up c /* ascii only */", "~{q}={v127} cq",
              # the log is full (100 entries) while PRINT arguments still draw random numbers: the music after it must not depend on debug/entry point
              "RandomSeed(7) [120 Print(Random(100))] v.Random=40 l8 cdefgab>c", "[101 PRINT(Random(9))] v.Random(20) c d e f",
              "FOR(INT I=0;I<105;I++){ PRINT(Random(5)); } v.Random=30 c d e", "[100 PRINT(Random(9))] t.Random(9) c d e f", "[99 PRINT(Random(9))] q.Random(9) c d e f"]
